@@ -632,4 +632,196 @@ theorem mem_otherDists {pts : List Point} {i : Nat} {d : Rat} :
       ∃ j, j < pts.length ∧ j ≠ i ∧ dist2 (pts.getD i []) (pts.getD j []) = d := by
   simp [otherDists, and_assoc]
 
+/-! ### pair correlation -/
+
+theorem perm_sumRat {l l' : List Rat} (h : l.Perm l') : sumRat l = sumRat l' := by
+  unfold sumRat
+  induction h with
+  | nil => rfl
+  | cons x _ ih => simp [List.foldr_cons, ih]
+  | swap x y l => simp only [List.foldr_cons]; grind
+  | trans _ _ ih1 ih2 => exact ih1.trans ih2
+
+theorem perm_flatMap_inner {α β : Type} {f g : α → List β} (l : List α)
+    (h : ∀ a ∈ l, (f a).Perm (g a)) : (l.flatMap f).Perm (l.flatMap g) := by
+  induction l with
+  | nil => simp
+  | cons a t ih =>
+    simp only [List.flatMap_cons]
+    exact List.Perm.append (h a (by simp)) (ih (fun b hb => h b (List.mem_cons_of_mem _ hb)))
+
+theorem samples_perm (box : Box) (cutoff : Rat) {l l' : List Point} (h : l.Perm l') :
+    (samples box cutoff l).Perm (samples box cutoff l') := by
+  unfold samples
+  refine List.Perm.trans (List.Perm.flatMap_right _ h) ?_
+  apply perm_flatMap_inner
+  intro p _
+  exact List.Perm.filterMap _ h
+
+theorem binSum_perm (arc : Rat → List Rat → Option Rat) (dr : Rat) {ss ss' : List Sample}
+    (h : ss.Perm ss') (k : Nat) : binSum arc dr ss k = binSum arc dr ss' k := by
+  unfold binSum
+  have hw : ((ss.filter fun s => inBin dr k s.1).map fun s => arc s.1 s.2).Perm
+      ((ss'.filter fun s => inBin dr k s.1).map fun s => arc s.1 s.2) :=
+    List.Perm.map _ (List.Perm.filter _ h)
+  simp only [hw.any_eq, perm_sumRat (List.Perm.map _ hw)]
+
+theorem pairCorr_perm (arc : Rat → List Rat → Option Rat) (box : Box) (cutoff dr : Rat)
+    (nd : Option Rat) {pts pts' : List Point} (h : pts.Perm pts') :
+    pairCorr arc box cutoff dr nd pts = pairCorr arc box cutoff dr nd pts' := by
+  unfold pairCorr
+  have hf : (pts.filter (inBox box)).Perm (pts'.filter (inBox box)) := List.Perm.filter _ h
+  simp only [hf.length_eq]
+  apply List.map_congr_left
+  intro k _
+  rw [binSum_perm arc dr (samples_perm box cutoff hf) k]
+
+theorem neighbours_map (f : Point → Point) (box box' : Box) (cutoff : Rat) (p : Point)
+    (hs : sideDists box' (f p) = sideDists box p) (l : List Point)
+    (hd : ∀ q ∈ l, dist2 (f p) (f q) = dist2 p q) :
+    neighbours box' cutoff (l.map f) (f p) = neighbours box cutoff l p := by
+  unfold neighbours
+  simp only [hs]
+  induction l with
+  | nil => rfl
+  | cons q t ih =>
+    simp only [List.map_cons, List.filterMap_cons, hd q (by simp)]
+    rw [ih (fun q' hq' => hd q' (List.mem_cons_of_mem _ hq'))]
+
+theorem samples_map (f : Point → Point) (box box' : Box) (cutoff : Rat) (inside : List Point)
+    (hs : ∀ p ∈ inside, sideDists box' (f p) = sideDists box p)
+    (hd : ∀ p ∈ inside, ∀ q ∈ inside, dist2 (f p) (f q) = dist2 p q) :
+    samples box' cutoff (inside.map f) = samples box cutoff inside := by
+  unfold samples
+  have : ∀ l : List Point, (∀ p ∈ l, p ∈ inside) →
+      (l.map f).flatMap (neighbours box' cutoff (inside.map f)) =
+        l.flatMap (neighbours box cutoff inside) := by
+    intro l
+    induction l with
+    | nil => intro _; rfl
+    | cons p t ih =>
+      intro hl
+      have hp := hl p (by simp)
+      simp only [List.map_cons, List.flatMap_cons]
+      rw [neighbours_map f box box' cutoff p (hs p hp) inside (hd p hp),
+        ih (fun q hq => hl q (List.mem_cons_of_mem _ hq))]
+  exact this inside (fun _ h => h)
+
+theorem pairCorr_congr (arc : Rat → List Rat → Option Rat) (f : Point → Point)
+    (box box' : Box) (cutoff dr : Rat) (nd : Option Rat) (pts : List Point)
+    (hin : ∀ p ∈ pts, inBox box' (f p) = inBox box p)
+    (hs : ∀ p ∈ pts, sideDists box' (f p) = sideDists box p)
+    (hd : ∀ p ∈ pts, ∀ q ∈ pts, dist2 (f p) (f q) = dist2 p q)
+    (hv : volume box' = volume box) :
+    pairCorr arc box' cutoff dr nd (pts.map f) = pairCorr arc box cutoff dr nd pts := by
+  have hfil : (pts.map f).filter (inBox box') = (pts.filter (inBox box)).map f := by
+    rw [List.filter_map]
+    congr 1
+    apply List.filter_congr
+    intro p hp
+    exact hin p hp
+  unfold pairCorr
+  simp only [hfil, List.length_map]
+  have hsub : ∀ p ∈ pts.filter (inBox box), p ∈ pts := fun p hp => (List.mem_filter.1 hp).1
+  rw [samples_map f box box' cutoff _ (fun p hp => hs p (hsub p hp))
+    (fun p hp q hq => hd p (hsub p hp) q (hsub q hq))]
+  have : density box' (pts.filter (inBox box)).length nd =
+      density box (pts.filter (inBox box)).length nd := by
+    unfold density; rw [hv]
+  rw [this]
+
+/-- translation of a point by the vector `t` -/
+def translate (t p : Point) : Point := List.zipWith (· + ·) p t
+
+/-- translation of the bounding box -/
+def translateBox (t : Point) (box : Box) : Box :=
+  List.zipWith (fun (b : Rat × Rat) s => (b.1 + s, b.2 + s)) box t
+
+theorem dist2_translate (t : Point) : ∀ (p q : Point), p.length = t.length → q.length = t.length →
+    dist2 (translate t p) (translate t q) = dist2 p q := by
+  unfold dist2 translate
+  induction t with
+  | nil =>
+    intro p q hp hq
+    simp at hp hq; subst hp; subst hq; rfl
+  | cons s t ih =>
+    intro p q hp hq
+    cases p with
+    | nil => simp at hp
+    | cons a p =>
+      cases q with
+      | nil => simp at hq
+      | cons b q =>
+        simp only [List.length_cons, Nat.add_right_cancel_iff] at hp hq
+        simp only [List.zipWith_cons_cons, List.sum_cons, ih p q hp hq]
+        grind
+
+theorem sideDists_translate (t : Point) : ∀ (box : Box) (p : Point), p.length = t.length →
+    box.length = t.length →
+    sideDists (translateBox t box) (translate t p) = sideDists box p := by
+  unfold sideDists translate translateBox
+  induction t with
+  | nil =>
+    intro box p hp hb
+    simp at hp hb; subst hp; subst hb; rfl
+  | cons s t ih =>
+    intro box p hp hb
+    cases p with
+    | nil => simp at hp
+    | cons a p =>
+      cases box with
+      | nil => simp at hb
+      | cons b box =>
+        simp only [List.length_cons, Nat.add_right_cancel_iff] at hp hb
+        simp only [List.zipWith_cons_cons, List.flatten_cons, ih box p hp hb]
+        congr 1
+        simp only [List.cons.injEq, and_true]
+        constructor <;> grind
+
+theorem inBox_translate (t : Point) : ∀ (box : Box) (p : Point), p.length = t.length →
+    box.length = t.length →
+    inBox (translateBox t box) (translate t p) = inBox box p := by
+  unfold inBox translate translateBox
+  induction t with
+  | nil =>
+    intro box p hp hb
+    simp at hp hb; subst hp; subst hb; rfl
+  | cons s t ih =>
+    intro box p hp hb
+    cases p with
+    | nil => simp at hp
+    | cons a p =>
+      cases box with
+      | nil => simp at hb
+      | cons b box =>
+        simp only [List.length_cons, Nat.add_right_cancel_iff] at hp hb
+        simp only [List.zipWith_cons_cons, List.all_cons, ih box p hp hb]
+        congr 1
+        have h1 : (b.1 + s ≤ a + s) ↔ (b.1 ≤ a) := Rat.add_le_add_right
+        have h2 : (a + s ≤ b.2 + s) ↔ (a ≤ b.2) := Rat.add_le_add_right
+        simp [h1, h2]
+
+theorem volume_translate (t : Point) : ∀ (box : Box), box.length = t.length →
+    volume (translateBox t box) = volume box := by
+  unfold volume translateBox
+  have key : ∀ (t : Point) (box : Box) (acc : Rat), box.length = t.length →
+      ((List.zipWith (fun (b : Rat × Rat) s => (b.1 + s, b.2 + s)) box t).map
+          fun b => b.2 - b.1).foldl (· * ·) acc =
+        (box.map fun b => b.2 - b.1).foldl (· * ·) acc := by
+    intro t
+    induction t with
+    | nil => intro box acc hb; simp at hb; subst hb; rfl
+    | cons s t ih =>
+      intro box acc hb
+      cases box with
+      | nil => simp at hb
+      | cons b box =>
+        simp only [List.length_cons, Nat.add_right_cancel_iff] at hb
+        simp only [List.zipWith_cons_cons, List.map_cons, List.foldl_cons]
+        have : b.2 + s - (b.1 + s) = b.2 - b.1 := by grind
+        rw [this]
+        exact ih box _ hb
+  intro box hb
+  exact key t box 1 hb
+
 end TrackpyV.Static
